@@ -1,7 +1,8 @@
 #!/bin/bash
-# run_all_seeds.sh : the must-fail corpus. Every seeded change is applied in turn to a scratch worktree of
-# /repo's HEAD (never to /repo itself), the check of its property is run on that worktree with its own
-# copy of gocv, and the outcome is recorded in /verif/seeded/RESULTS.txt. The worktree is removed afterwards.
+# run_all_seeds.sh [seed-id ...] : the must-fail corpus. Every seeded change (or only the named ones) is applied
+# in turn to a scratch worktree of /repo's HEAD (never to /repo itself), the check of its property is run on that
+# worktree with its own copy of gocv, and the outcome is recorded in /verif/seeded/RESULTS.txt (with ids given:
+# only their lines are replaced). The worktree is removed afterwards.
 WT=/tmp/selftest_wt
 BIN=/tmp/selftest_gocv
 out=/verif/seeded/RESULTS.txt
@@ -13,8 +14,14 @@ SV=/tmp/selftest_verif
 rm -rf $SV; mkdir -p $SV
 cp -r /verif/spec /verif/known_findings.txt /verif/findings $SV/ 2>/dev/null
 [ -d /verif/.cache ] && cp -r /verif/.cache $SV/.cache
-: > $out
-for d in /verif/seeded/C*-*; do
+if [ $# -eq 0 ]; then
+  : > $out
+  dirs=$(ls -d /verif/seeded/C*-*)
+else
+  dirs=""
+  for id in "$@"; do dirs="$dirs /verif/seeded/$id"; sed -i "/^$id /d; /^done$/d" $out; done
+fi
+for d in $dirs; do
   id=$(basename $d); prop=${id%-*}
   [ -f $d/patch.diff ] || continue
   if ! jq -e --arg p "$prop" '.checks[] | select(.property_id==$p)' /verif/MANIFEST.json >/dev/null; then echo "$id no-check" >> $out; continue; fi
@@ -22,9 +29,10 @@ for d in /verif/seeded/C*-*; do
   res=$($BIN check -property $prop -tier quick -repo $WT -verif $SV 2>&1)
   git -C $WT checkout -q -- .
   viol=$(echo "$res" | grep -c "^VIOLATION")
-  first=$(echo "$res" | grep -m1 "^VIOLATION" | sed 's/.*replay=//' | sed 's|/verif/replay/[^/]*/||')
+  first=$(echo "$res" | grep -m1 "^VIOLATION" | sed 's/.*replay=//' | sed 's|/tmp/selftest_verif/replay/[^/]*/||; s|/verif/replay/[^/]*/||')
   echo "$id violations=$viol $first" >> $out
 done
 git -C /repo worktree remove --force $WT
 rm -rf $BIN $SV
-echo done >> $out
+sort -o $out $out
+echo "HEAD $(git -C /repo rev-parse --short HEAD) $(date -u +%FT%TZ)" >> $out
